@@ -20,6 +20,36 @@ type c09Case struct {
 	Eol     string     `json:"eol"`
 	Table   [][]string `json:"table"`
 	QuoteIt [][]int    `json:"quoteIt"` // per field: 0 = raw if possible, k>0 = wrap in quote symbol k-1 (mod len)
+	// how the tokenizer gets its configuration: the order of the setter calls, a SetEndOfLine call somewhere among
+	// them, and setter calls with an invalid value (they panic by contract and must leave nothing behind)
+	Setup []string `json:"setup,omitempty"` // sequence out of: seps quotes eol:<text> badseps badquotes
+}
+
+// c09Configure applies the configuration calls; "badseps" / "badquotes" are calls the tokenizer must reject
+// (a separator equal to a current quote symbol and vice versa) without any lasting effect.
+func c09Configure(t *csv.CsvTokenizer, c c09Case) {
+	setup := c.Setup
+	if len(setup) == 0 {
+		setup = []string{"seps", "quotes"}
+	}
+	rejected := func(f func()) {
+		defer func() { recover() }()
+		f()
+	}
+	for _, s := range setup {
+		switch {
+		case s == "seps":
+			t.SetFieldSeparators(c.Seps)
+		case s == "quotes":
+			t.SetQuoteSymbols(c.Quotes)
+		case strings.HasPrefix(s, "eol:"):
+			t.SetEndOfLine(strings.TrimPrefix(s, "eol:"))
+		case s == "badseps":
+			rejected(func() { t.SetFieldSeparators([]rune{'#', t.QuoteSymbols()[0]}) })
+		case s == "badquotes":
+			rejected(func() { t.SetQuoteSymbols([]rune{'$', t.FieldSeparators()[0]}) })
+		}
+	}
 }
 
 func runeIn(r rune, set []rune) bool {
@@ -85,14 +115,7 @@ func checkC09With(configured *csv.CsvTokenizer, c c09Case) *evid.Fail {
 		t := configured
 		if t == nil {
 			t = csv.NewCsvTokenizer()
-			// the order of the configuration calls must not matter
-			if len(text)%2 == 0 {
-				t.SetFieldSeparators(c.Seps)
-				t.SetQuoteSymbols(c.Quotes)
-			} else {
-				t.SetQuoteSymbols(c.Quotes)
-				t.SetFieldSeparators(c.Seps)
-			}
+			c09Configure(t, c)
 		}
 		t.SetDecodeStrings(true)
 		for _, x := range t.TokenizeBuffer(text) {
@@ -305,6 +328,20 @@ func TestC09_Rapid(t *testing.T) {
 		seps := rapid.SliceOfNDistinct(rapid.SampledFrom(sepPool), 1, 3, func(r rune) rune { return r }).Draw(rt, "seps")
 		quotes := rapid.SliceOfNDistinct(rapid.SampledFrom(quotePool), 1, 2, func(r rune) rune { return r }).Draw(rt, "quotes")
 		c := c09Case{Seps: seps, Quotes: quotes, Eol: rapid.SampledFrom(c09Eols).Draw(rt, "eol")}
+		if rapid.IntRange(0, 2).Draw(rt, "customsetup") == 0 {
+			// the valid calls in either order (each exactly once, as the last word on its setting), with SetEndOfLine
+			// and rejected calls sprinkled in between
+			valid := rapid.Permutation([]string{"seps", "quotes"}).Draw(rt, "order")
+			extras := []string{"eol:\n", "eol:\r", "eol:\r\n", "eol:\n\r", "eol:", "badseps", "badquotes"}
+			for pos := 0; pos <= 2; pos++ {
+				for k := rapid.IntRange(0, 2).Draw(rt, "nextra"); k > 0; k-- {
+					c.Setup = append(c.Setup, rapid.SampledFrom(extras).Draw(rt, "extra"))
+				}
+				if pos < 2 {
+					c.Setup = append(c.Setup, valid[pos])
+				}
+			}
+		}
 		rowsN := rapid.IntRange(1, 6).Draw(rt, "rows")
 		if rapid.IntRange(0, 19).Draw(rt, "bigtable") == 0 {
 			rowsN = rapid.IntRange(6, 60).Draw(rt, "manyrows")
